@@ -105,6 +105,9 @@ type c41run struct {
 	cw       *lib.CaseWriter
 	rng      *lib.Rng
 	distinct map[string]bool
+	// noModel: mutants are only run through the real decoder (panic monitor), not sent to the Coq model
+	// (bounds the number of Coq cases in the thorough tier)
+	noModel bool
 }
 
 func trunc(s string, n int) string {
@@ -143,7 +146,7 @@ func (c *c41run) decodeCaseOf(orig *XVal, doc []byte, tree *JNode, origin string
 	default:
 		c.sum.Count("decode-result:error")
 	}
-	if tree == nil || !tree.ModelOK() || tree.Depth() > 60 {
+	if tree == nil || !tree.ModelOK() || tree.Depth() > 60 || (c.noModel && orig == nil) {
 		return d, out
 	}
 	obs := ""
@@ -735,6 +738,7 @@ func c41(sum *lib.Summary) {
 	}
 	for i := 0; i < n; i++ {
 		v := g.Value()
+		c.noModel = i >= 600
 		c.roundTrip(v, "generated", "", true)
 		// type IDs of types of the universe
 		if i%2 == 0 {
